@@ -170,7 +170,7 @@ func (g *gen) observe(st *Node, v *vinfo) *Node {
 func (g *gen) stSide() *Node {
 	for tries := 0; tries < 3; tries++ {
 		var n *Node
-		switch g.weighted([]int{25, 25, 15, 12, 15, 8, 10, 14}, "side") {
+		switch g.weighted([]int{25, 25, 15, 12, 15, 8, 10, 14, 10, 10, 8}, "side") {
 		case 0:
 			n = g.stCompoundIdx()
 		case 1:
@@ -185,6 +185,12 @@ func (g *gen) stSide() *Node {
 			n = g.stDeleteNil()
 		case 6:
 			n = g.stLitCalls()
+		case 8:
+			n = g.stAppendCopy()
+		case 9:
+			n = g.stSubsliceWrite()
+		case 10:
+			n = g.stRangeRunes()
 		default:
 			n = g.stFuncLit()
 		}
@@ -469,6 +475,11 @@ func (g *gen) stFuncLit() *Node {
 		return nil
 	}
 	g.noteWrite(t)
+	if g.chance(35) && g.on(kNamedFuncValue) {
+		if n := g.stNamedFuncValue(t); n != nil {
+			return n
+		}
+	}
 	g.account(4)
 	// the body sees its parameter only
 	outer := g.f
@@ -487,6 +498,190 @@ func (g *gen) stFuncLit() *Node {
 		{K: "define", S: name, A: []*Node{lit}},
 		{K: "assign", S: "=", A: []*Node{t, {K: "call", S: name, A: []*Node{arg.n}}}},
 	}}
+}
+
+// stNamedFuncValue: a declared function used as a value: v := f0; t = v(args), or called through parentheses: t = (f0)(args).
+func (g *gen) stNamedFuncValue(t *Node) *Node {
+	var cs []*fsig
+	for _, f := range g.callables([]string{"int"}, true) {
+		if !g.pr.Funcs[f.idx].AsVar {
+			cs = append(cs, f)
+		}
+	}
+	if len(cs) == 0 {
+		return nil
+	}
+	f := cs[g.n(len(cs), "nfv")]
+	args, acc, ok := g.genArgs(f, 1)
+	if !ok {
+		return nil
+	}
+	g.noteExpr(acc)
+	g.noteCall(f)
+	g.account(2)
+	g.mark("named-func-value")
+	if g.chance(25) {
+		return &Node{K: "assign", S: "=", A: []*Node{t, {K: "call", S: "(" + f.name + ")", A: args}}}
+	}
+	name := g.newName(false)
+	return &Node{K: "seq", B: []*Node{
+		{K: "define", S: name, A: []*Node{vr(f.name)}},
+		{K: "assign", S: "=", A: []*Node{t, {K: "call", S: name, A: args}}},
+	}}
+}
+
+// stTypeSwitch: switch any(e).(type) { case int: ... case string, bool: ... default: ... }. The compiler has no
+// translation for it (the VM does not tell Go's types apart) and refuses it by name.
+func (g *gen) stTypeSwitch() *Node {
+	typ := []string{"int", "bool", "string"}[g.n(3, "tst")]
+	e, _ := g.genOf(typ, 1)
+	g.noteExpr(e)
+	n := &Node{K: "typeswitch", A: []*Node{e.n}}
+	g.push()
+	defer g.pop()
+	g.enterLoop("switch")
+	g.f.stackItems++
+	defer func() { g.f.stackItems-- }()
+	lists := [][]string{{"int"}, {"string"}, {"bool", "[]byte"}, {""}}
+	k := g.rng(1, len(lists), "tsn")
+	start := g.n(len(lists), "tss")
+	for i := 0; i < k; i++ {
+		c := &Node{K: "tcase"}
+		for j, tn := range lists[(start+i)%len(lists)] {
+			if j > 0 {
+				c.S += ", "
+			}
+			c.S += tn
+		}
+		c.B, _ = g.genBlock(2)
+		n.B = append(n.B, c)
+	}
+	g.leaveLoop(n)
+	g.mark("type-switch")
+	return n
+}
+
+// stMethodValue: v := x.m; t = v(args). A method value binds its receiver (a closure): outside the dialect, the compiler
+// refuses it by name.
+func (g *gen) stMethodValue() *Node {
+	t, ok := g.accTarget()
+	if !ok {
+		return nil
+	}
+	var ms []*fsig
+	for _, f := range g.funcs {
+		if f.recv != "" && len(f.results) == 1 && f.results[0] == "int" && g.callOK(f, true) && len(g.varsOf(f.recv)) > 0 {
+			ms = append(ms, f)
+		}
+	}
+	if len(ms) == 0 {
+		return nil
+	}
+	f := ms[g.n(len(ms), "mvm")]
+	args, acc, ok := g.genArgs(f, 1)
+	if !ok {
+		return nil
+	}
+	rv := g.pickVar(f.recv, nil)
+	g.useVar(rv)
+	g.noteExpr(acc)
+	g.noteCall(f)
+	g.noteWrite(t)
+	g.account(2)
+	name := g.newName(false)
+	g.mark("method-value")
+	return &Node{K: "seq", B: []*Node{
+		{K: "define", S: name, A: []*Node{{K: "mval", S: f.name, A: []*Node{vr(rv.name)}}}},
+		{K: "assign", S: "=", A: []*Node{t, {K: "call", S: name, A: args}}},
+	}}
+}
+
+// stAppendCopy: w := append(v, e) for a slice v whose capacity equals its length (the value of a literal nobody has
+// appended to): Go allocates a new array, so v keeps its length and a write through w does not reach v.
+func (g *gen) stAppendCopy() *Node {
+	if !g.on(kAppendAlias) {
+		return nil
+	}
+	acc, ok := g.accTarget()
+	v := g.pickVar("[]int", func(v *vinfo) bool { return v.fromLit && !v.growing && !v.global && !v.param })
+	if !ok || v == nil || !g.room(8) {
+		return nil
+	}
+	g.useVar(v)
+	g.noteWrite(acc)
+	g.account(5)
+	e := fitStore(g.genInt(1))
+	g.noteExpr(e)
+	name := g.newName(false)
+	out := []*Node{{K: "define", S: name, A: []*Node{{K: "append", A: []*Node{vr(v.name), e.n}}}}}
+	g.add(&vinfo{name: name, typ: "[]int", minLen: v.minLen + 1, appends: v.minLen + 1})
+	ln := func(x string) *Node { return &Node{K: "len", A: []*Node{vr(x)}} }
+	fold := bin("+", bin("*", ln(v.name), ilit(16)), ln(name))
+	if v.minLen > 0 {
+		out = append(out, &Node{K: "assign", S: "=", A: []*Node{{K: "index", A: []*Node{vr(name), ilit(0)}}, ilit(int64(g.rng(100, 999, "acw")))}})
+		fold = bin("+", fold, bin("%", &Node{K: "index", A: []*Node{vr(v.name), ilit(0)}}, ilit(1009)))
+	}
+	out = append(out, &Node{K: "assign", S: "+=", A: []*Node{acc, fold}})
+	g.mark("append-to-new-variable")
+	return &Node{K: "seq", B: out}
+}
+
+// stSubsliceWrite: w := b[lo:hi]; w[0] = c; acc += int(b[lo]): a sub-slice shares the array of its operand.
+func (g *gen) stSubsliceWrite() *Node {
+	if !g.on(kSubsliceCopy) {
+		return nil
+	}
+	acc, ok := g.accTarget()
+	v := g.pickVar("[]byte", func(v *vinfo) bool { return !v.ro && !v.maybeNil && v.minLen >= 2 && !v.global && !v.param })
+	if !ok || !g.room(8) {
+		return nil
+	}
+	var pre []*Node
+	if v == nil || g.chance(40) {
+		// a byte slice of its own
+		k := g.rng(2, 4, "ssk")
+		lit := &Node{K: "slit", T: "[]byte"}
+		for i := 0; i < k; i++ {
+			lit.A = append(lit.A, ilit(byteVals[g.n(len(byteVals), "ssb")]))
+		}
+		nm := g.newName(false)
+		v = g.add(&vinfo{name: nm, typ: "[]byte", minLen: k, maxLen: 16})
+		pre = append(pre, &Node{K: "define", S: nm, A: []*Node{lit}})
+	}
+	g.useVar(v)
+	g.noteWrite(acc)
+	g.account(4)
+	lo := g.rng(0, v.minLen-1, "sslo")
+	hi := g.rng(lo+1, v.minLen, "sshi")
+	name := g.newName(false)
+	g.add(&vinfo{name: name, typ: "[]byte", minLen: hi - lo, maxLen: 16, ro: true})
+	g.mark("subslice-write")
+	return &Node{K: "seq", B: append(pre, []*Node{
+		{K: "define", S: name, A: []*Node{{K: "slice", A: []*Node{vr(v.name), ilit(int64(lo)), ilit(int64(hi))}}}},
+		{K: "assign", S: "=", A: []*Node{{K: "index", A: []*Node{vr(name), ilit(0)}}, ilit(byteVals[g.n(len(byteVals), "ssv")])}},
+		{K: "assign", S: "+=", A: []*Node{acc, {K: "conv", T: "int", A: []*Node{{K: "index", A: []*Node{vr(v.name), ilit(int64(lo))}}}}}},
+	}...)}
+}
+
+// stRangeRunes: for i := range "aéz" { acc += i + 1 }: a range over a string produces one iteration per character (rune)
+// with the byte offset of its first byte, not one per byte.
+func (g *gen) stRangeRunes() *Node {
+	if !g.on(kStringRunes) {
+		return nil
+	}
+	acc, ok := g.accTarget()
+	if !ok || !g.room(12) {
+		return nil
+	}
+	g.noteWrite(acc)
+	g.account(10)
+	lit := slitS([]string{"aéz", "日本", "é", "xyü", "€5"}[g.n(5, "rrs")])
+	g.mark("range-string-multibyte")
+	if g.chance(40) {
+		return &Node{K: "range", T: ":=", A: []*Node{none(), none(), lit}, B: []*Node{{K: "assign", S: "+=", A: []*Node{acc, ilit(int64(g.rng(1, 9, "rrc")))}}}}
+	}
+	kn := g.newName(false)
+	return &Node{K: "range", T: ":=", A: []*Node{vr(kn), none(), lit}, B: []*Node{{K: "assign", S: "+=", A: []*Node{acc, bin("+", vr(kn), ilit(1))}}}}
 }
 
 // stGoto: a counting loop built with a backward goto, or a forward goto that skips a block. Label and goto are in
